@@ -447,6 +447,97 @@ func ifBodyHas(rel, fn, condPart, stmt string) bool {
 	return found
 }
 
+// lockCovers: in fn's body (top-level statements), mu is locked by a statement `<mu>.Lock()` or `<mu>.RLock()`
+// and every top-level statement that mentions one of the shared names lies after it and before the matching
+// explicit unlock — or anywhere after it when the statement following the lock is `defer <mu>.(R)Unlock()`.
+// No other lock/unlock of mu may appear anywhere in the body.
+func lockCovers(rel, fn, mu string, shared []string) bool {
+	fd := findFunc(rel, fn)
+	if fd == nil {
+		fatal("function %s not found in %s", fn, rel)
+	}
+	text := func(n ast.Node) string {
+		var buf bytes.Buffer
+		printer.Fprint(&buf, token.NewFileSet(), n)
+		return strings.TrimSpace(buf.String())
+	}
+	lockAt, unlockAt, deferred := -1, -1, false
+	stmts := fd.Body.List
+	for i, st := range stmts {
+		t := text(st)
+		switch {
+		case t == mu+".Lock()" || t == mu+".RLock()":
+			if lockAt >= 0 {
+				return false
+			}
+			lockAt = i
+		case t == "defer "+mu+".Unlock()" || t == "defer "+mu+".RUnlock()":
+			if lockAt < 0 || i != lockAt+1 || deferred {
+				return false
+			}
+			deferred = true
+		case t == mu+".Unlock()" || t == mu+".RUnlock()":
+			if lockAt < 0 || unlockAt >= 0 || deferred {
+				return false
+			}
+			unlockAt = i
+		}
+	}
+	if lockAt < 0 || (!deferred && unlockAt < 0) {
+		return false
+	}
+	// no lock operation hidden in nested statements
+	if strings.Count(text(fd.Body), mu+".") != 2 {
+		return false
+	}
+	for i, st := range stmts {
+		t := text(st)
+		uses := false
+		for _, sh := range shared {
+			if strings.Contains(t, sh) {
+				uses = true
+			}
+		}
+		if !uses {
+			continue
+		}
+		if i <= lockAt || (!deferred && i >= unlockAt) {
+			return false
+		}
+	}
+	return true
+}
+
+// textBefore: in the printed body of fn, the first occurrence of a comes before the first occurrence of b (both present).
+func textBefore(rel, fn, a, b string) bool {
+	t := funcText(rel, fn)
+	i, j := strings.Index(t, a), strings.Index(t, b)
+	return i >= 0 && j >= 0 && i < j
+}
+
+// topStmtBefore: among the top-level statements of fn, one with exactly the text a comes before one with exactly the text b,
+// and neither text occurs at top level more than once.
+func topStmtBefore(rel, fn, a, b string) bool {
+	fd := findFunc(rel, fn)
+	if fd == nil {
+		fatal("function %s not found in %s", fn, rel)
+	}
+	ia, ib, na, nb := -1, -1, 0, 0
+	for i, st := range fd.Body.List {
+		var buf bytes.Buffer
+		printer.Fprint(&buf, token.NewFileSet(), st)
+		switch strings.TrimSpace(buf.String()) {
+		case a:
+			ia = i
+			na++
+		case b:
+			ib = i
+			nb++
+		}
+	}
+	return na == 1 && nb == 1 && ia < ib
+}
+
 // funcText is the printed body of a function.
 func funcText(rel, fn string) string {
 	fd := findFunc(rel, fn)
@@ -605,6 +696,45 @@ func main() {
 		"`tCompaction` consults the read-only flag set by `SetReadOnly` at the top of its loop and before executing a command")
 	o.boolean("lkSetReadOnlyReleasesOnClose", countStmts("leveldb/db_write.go", "DB.SetReadOnly", "<-db.writeLockC") >= 1,
 		"`SetReadOnly` gives the write-lock token back when it gives up because the DB is closing")
+
+	{
+		sharedDB := []string{"nodeData", "kvData", "findGE", "findLT", "findLast", "p.n", "p.kvSize", "p.maxHeight", "prevNode", "p.rnd"}
+		sharedIt := []string{"nodeData", "kvData", "i.fill(", "i.p.find"}
+		ok := true
+		for _, fn := range []string{"DB.Put", "DB.Delete", "DB.Contains", "DB.Get", "DB.Find", "DB.Capacity", "DB.Size", "DB.Free", "DB.Len", "DB.Reset"} {
+			if !lockCovers("leveldb/memdb/memdb.go", fn, "p.mu", sharedDB) {
+				fmt.Fprintln(os.Stderr, "memMethodsAtomic: fails for", fn)
+				ok = false
+			}
+		}
+		for _, fn := range []string{"dbIter.First", "dbIter.Last", "dbIter.Seek", "dbIter.Next", "dbIter.Prev"} {
+			if !lockCovers("leveldb/memdb/memdb.go", fn, "i.p.mu", sharedIt) {
+				fmt.Fprintln(os.Stderr, "memMethodsAtomic: fails for", fn)
+				ok = false
+			}
+		}
+		o.boolean("memMethodsAtomic", ok,
+			"every public `memdb.DB` method and every `dbIter` movement touches the skip-list arrays only between taking `mu` and releasing it (one critical section per call)")
+	}
+
+	// order facts behind the configuration of the interleaving model (Model/Conc.lean, Cfg)
+	o.boolean("ordFlushCommitBeforeDrop", topStmtBefore("leveldb/db_compaction.go", "DB.memCompaction", `db.compactionCommit("memdb", rec)`, "db.dropFrozenMem()"),
+		"`memCompaction` commits the flushed table (`compactionCommit`) before it drops the frozen buffer")
+	o.boolean("ordReadersBuffersBeforeVersion", textBefore("leveldb/db.go", "DB.get", "db.getMems()", "db.s.version()") &&
+		textBefore("leveldb/db.go", "DB.has", "db.getMems()", "db.s.version()") &&
+		textBefore("leveldb/db_iter.go", "DB.newRawIterator", "db.getMems()", "db.s.version()"),
+		"`DB.get`, `DB.has` and `DB.newRawIterator` take the buffers (`getMems`) before the version")
+	o.boolean("ordOpenTxWaitsForFrozenFlush", strings.Contains(funcText("leveldb/db_transaction.go", "DB.OpenTransaction"), "else if err := db.compTriggerWait(db.mcompCmdC); err != nil") &&
+		textBefore("leveldb/db_transaction.go", "DB.OpenTransaction", "db.compTriggerWait(db.mcompCmdC)", "tr := &Transaction{"),
+		"`OpenTransaction` flushes a non-empty buffer and otherwise waits for a pending frozen-buffer flush before recording its sequence number")
+	o.boolean("ordDiscardKeepsSeq", ifBodyHas("leveldb/db_transaction.go", "Transaction.discard", "tr.seq > tr.db.getSeq()", "tr.db.setSeq(tr.seq)"),
+		"`Transaction.discard` advances the DB sequence number past the discarded range")
+	o.boolean("ordApplyBeforePublish", func() bool {
+		t := funcText("leveldb/db_write.go", "DB.writeLocked")
+		i, j := strings.Index(t, "batch.putMem(seq, mdb.DB)"), strings.LastIndex(t, "db.addSeq(uint64(batchesLen(batches)))")
+		return i >= 0 && j >= 0 && i < j && strings.Count(t, "db.addSeq(") == 2
+	}(),
+		"`writeLocked` inserts the group into the buffer before it publishes the new sequence number")
 
 	o.b.WriteString("\nend GoLevel.Gen\n")
 
